@@ -7,7 +7,7 @@ Proof. exact pg_ex_good. Qed.
 Definition pg_ex_history : list pg_op :=
   [PoAddPage false (PhObj false 3) true;
    PoRemove false (PhObj false 4);
-   PoAddPageAt false (PhDirect (PvDict [(k_Mk, PvInt 9)])) false (PhObj false 3);
+   PoAddPageAt false (PhDirect (PvDict [(pgk_Mk, PvInt 9)])) false (PhObj false 3);
    PoFind false 99;
    PoSwap false 3 6;
    PoHAddPage true (PhObj true 4) false].
@@ -39,7 +39,7 @@ Definition pg_ex_src : pg_doc :=
 Example pg_ex_copy :
   let '(src', dst', e, r) := pg_copied pg_ex_src pg_ex_doc 6 in
   e = None /\ r = PvRef 6 /\ src' = pg_ex_src /\
-  rev (c_tocopy (pg_cres pg_ex_src pg_ex_doc 6)) = [6; 7; 5] /\
+  rev (pgc_tocopy (pg_cres pg_ex_src pg_ex_doc 6)) = [6; 7; 5] /\
   pd_omap dst' = [(5, 9); (3, 8); (7, 7); (6, 6)] /\
   pg_lookup (pd_store dst') 6 = Some (PcObj (PvDict [([65], PvRef 7); ([66], PvRef 7); ([81], PvRef 8); ([83], PvRef 9)])) /\
   pg_lookup (pd_store dst') 7 = Some (PcObj (PvDict [([66], PvRef 6); ([86], PvInt 7)])) /\
